@@ -23,6 +23,7 @@ func init() {
 			a.R.Floor("G.replay-gate", 3*len(full))
 			a.counterStoreGate("G.counter-store", auth)
 			a.pickKeysTable()
+			a.retireOrder("S.retire-order")
 			a.c05NewSession()
 			a.fragmentResetBeforeDispatch("S.fragment-reset")
 		})
